@@ -155,7 +155,7 @@ func (st *State) Clone() *State {
 }
 
 // Vreg / SetVreg access one lane of a VGPR.
-func (st *State) Vreg(lane, reg int) uint32     { return st.V[lane*NumVGPR+reg] }
+func (st *State) Vreg(lane, reg int) uint32       { return st.V[lane*NumVGPR+reg] }
 func (st *State) SetVreg(lane, reg int, v uint32) { st.V[lane*NumVGPR+reg] = v }
 
 // Diff returns a list of component names that differ between st and o
@@ -270,6 +270,9 @@ func (st *State) ReadScalar(o Operand, bits int) uint64 {
 		}
 		return uint64(st.S[o.Idx])
 	case KVCC:
+		if bits == 32 && st.Quirk&QVCCLoRead64 == 0 {
+			return uint64(uint32(st.VCC)) // only reachable with a deviation model's narrower operand pattern
+		}
 		return st.VCC
 	case KVCCLo:
 		if bits == 64 || st.Quirk&QVCCLoRead64 != 0 {
@@ -282,6 +285,9 @@ func (st *State) ReadScalar(o Operand, bits int) uint64 {
 		}
 		return st.VCC >> 32
 	case KEXEC:
+		if bits == 32 {
+			return uint64(uint32(st.EXEC))
+		}
 		return st.EXEC
 	case KEXECLo:
 		if bits == 64 {
